@@ -14,7 +14,8 @@ pub fn prop() -> Prop {
     id: "C04",
     rule: "case = (operator in merge/zip/combine_latest/with_latest_from/take_until/skip_until/sample/buffer, local or _threads form (per-node flag in the local build, or the all-thread-safe build); both inputs hot (Subject or create-handle), optionally behind a chain of 0..2 C03 operators; two scripts of <= 4 events each (items, complete, error at any position, events after the terminal; one case in eight: 20..60 (or 70 / 135 / 260 / 330) items per side interleaved in runs of 1..40 (or 66 / 130 / 300)); one interleaving of the two scripts chosen by the tape). \
            Oracle: delivered (step, notification) list == reference state machine for that operator over the merged timeline (buffer: notifier completion may flush+complete or be ignored). Non-trivial: both inputs emitted an item and the timeline alternates between the inputs at least once, or a terminal lies strictly inside the timeline. Distinct by hash(case). \
-           Part `all-merges` enumerates every operator x all script pairs of <= 4+4 events over a 2-letter alphabet x every interleaving (thorough tier).",
+           Part `all-merges` enumerates every operator x all script pairs of <= 4+4 events over a 2-letter alphabet x every interleaving (complete in both tiers). \
+           Part `trees`: a combinator inside a pipeline - 0..2 C03 operators below each input and 0..2 above the combinator, in half of the cases a second combinator nested as its left or right input (three distinct hot inputs, scripts of <= 3 events each + post-terminal events, one generated three-way interleaving); oracle: the composed reference functions (every combination of the permitted readings of take(0), skip_last and buffer's notifier completion is accepted).",
     assumptions: &[
       "take_until / skip_until ignore the notifier's error and completion (separate error type; statement: switch exactly at the notifier's first item)",
       "zip / combine_latest complete when both inputs have completed (the library's and the statement's reading for merge; the statement is silent for zip)",
@@ -23,6 +24,7 @@ pub fn prop() -> Prop {
     parts: vec![
       Part { name: "random", run: run_random, tape_len: 64, quick_cases: 1_000_000, thorough_cases: 20_000_000, exhaustive_depth: None, exhaustive_budget: 0, exh_quick: false },
       Part { name: "all-merges", run: run_enum, tape_len: 32, quick_cases: 200_000, thorough_cases: 1_000_000, exhaustive_depth: Some(24), exhaustive_budget: 60_000_000, exh_quick: true },
+      Part { name: "trees", run: run_tree, tape_len: 96, quick_cases: 600_000, thorough_cases: 12_000_000, exhaustive_depth: None, exhaustive_budget: 0, exh_quick: false },
     ],
   }
 }
@@ -232,6 +234,147 @@ fn judge(case: &PCase, ctx: &Ctx) -> Outcome {
     None
   };
   Outcome { verdict, nontrivial: nt, hash: hash_of(case), labels, notes: vec![], desc }
+}
+
+/// a combinator inside a pipeline: unary chains below and above it, optionally a second combinator as one input
+fn gen_tree(c: &mut dyn Choices) -> PCase {
+  let k = |c: &mut dyn Choices| if c.pick(3) == 0 { IKind::Create } else { IKind::Subject };
+  let shape = c.pick(4); // 0,1: one combinator; 2: nested left; 3: nested right
+  let n_in = if shape < 2 { 2 } else { 3 };
+  let kinds: Vec<IKind> = (0..n_in).map(|_| k(c)).collect();
+  let threads = c.pick(3) == 0;
+  let leaf = |i: usize, k: IKind| Node::Src(if k == IKind::Create { Src::HotCreate(i) } else { Src::Hot(i) });
+  fn chain(c: &mut dyn Choices, mut n: Node, max: usize) -> Node {
+    for _ in 0..c.pick(max + 1) {
+      n = Node::un(gen_un_c03(c, 3, 3), n);
+    }
+    n
+  }
+  let node = match shape {
+    0 | 1 => {
+      let a = chain(c, leaf(0, kinds[0]), 2);
+      let b = chain(c, leaf(1, kinds[1]), 2);
+      let tf = c.flag();
+      Node::Bin(gen_bin(c), tf, Box::new(a), Box::new(b))
+    }
+    2 => {
+      let tf = c.flag();
+      let inner = Node::Bin(gen_bin(c), tf, Box::new(chain(c, leaf(0, kinds[0]), 1)), Box::new(chain(c, leaf(1, kinds[1]), 1)));
+      let inner = chain(c, inner, 1);
+      let tf = c.flag();
+      Node::Bin(gen_bin(c), tf, Box::new(inner), Box::new(chain(c, leaf(2, kinds[2]), 1)))
+    }
+    _ => {
+      let tf = c.flag();
+      let inner = Node::Bin(gen_bin(c), tf, Box::new(chain(c, leaf(1, kinds[1]), 1)), Box::new(chain(c, leaf(2, kinds[2]), 1)));
+      let inner = chain(c, inner, 1);
+      let tf = c.flag();
+      Node::Bin(gen_bin(c), tf, Box::new(chain(c, leaf(0, kinds[0]), 1)), Box::new(inner))
+    }
+  };
+  let node = chain(c, node, 2);
+  let sides: Vec<Vec<Ev>> = (0..n_in).map(|i| gen_side_script(c, 3, 3, 10 * i as i64, true)).collect();
+  // one interleaving of the n_in scripts: each step picks among the sides that still have events
+  let mut pos = vec![0usize; n_in];
+  let mut script = vec![];
+  loop {
+    let open: Vec<usize> = (0..n_in).filter(|&i| pos[i] < sides[i].len()).collect();
+    if open.is_empty() {
+      break;
+    }
+    let i = open[c.pick(open.len())];
+    script.push(Step::Emit(i, sides[i][pos[i]].clone()));
+    pos[i] += 1;
+  }
+  PCase { node, kinds, script, mode: SchedMode::Fifo, threads }
+}
+
+fn bin_names(n: &Node, out: &mut Vec<String>) {
+  match n {
+    Node::Bin(op, _, a, b) => {
+      out.push(format!("{op:?}"));
+      bin_names(a, out);
+      bin_names(b, out);
+    }
+    Node::Un(_, _, i) => bin_names(i, out),
+    _ => {}
+  }
+}
+
+fn run_tree(c: &mut dyn Choices, ctx: &Ctx) -> Outcome {
+  let case = gen_tree(c);
+  let mut bins = vec![];
+  bin_names(&case.node, &mut bins);
+  if ctx.known("items:SkipUntil") && bins.iter().any(|b| b == "SkipUntil") {
+    return Outcome { labels: vec!["excluded-known"], ..Outcome::discard() };
+  }
+  let inputs = inputs_of(&case);
+  let Some(expected) = model::eval(&case.node, &inputs, Opts::default()) else { return Outcome::discard() };
+  let res = run_pcase(&case, false);
+  let names = bins.join(">");
+  let first_term = case.script.iter().position(|s| matches!(s, Step::Emit(_, e) if e.is_terminal()));
+  let inner_term = first_term.map_or(false, |p| p + 1 < case.script.len());
+  let (mut has_un_above, mut depth_un) = (matches!(case.node, Node::Un(..)), 0);
+  case.node.visit(&mut |n| {
+    if matches!(n, Node::Un(..)) {
+      depth_un += 1
+    }
+  });
+  has_un_above = has_un_above && depth_un > 0;
+  let mut labels = vec![if bins.len() > 1 { "tree:nested" } else { "tree:single" }];
+  if has_un_above {
+    labels.push("tree:operators-above");
+  }
+  if inner_term {
+    labels.push("terminal-inside");
+  }
+  if case.threads {
+    labels.push("build:threads");
+  }
+  let items_sides = (0..case.kinds.len()).filter(|&k| case.script.iter().any(|s| matches!(s, Step::Emit(i, Ev::N(_)) if *i == k))).count();
+  let nt = (items_sides >= 2 && (bins.len() > 1 || depth_un > 0)) || inner_term;
+  let verdict = match &res {
+    Err(m) => Verdict::Violation { sig: format!("panic:tree:{names}"), detail: format!("pipeline panicked: {m}") },
+    Ok(tr) => {
+      let act = trace_tl(tr);
+      let mut ok = act == expected;
+      if !ok {
+        'outer: for sl in [false, true] {
+          for bi in [false, true] {
+            for t0 in 0..3 {
+              let o = Opts { skip_last_lazy: sl, buffer_ignore_notifier_complete: bi, take0_immediate: t0 == 1, take0_at_first_item: t0 == 2 };
+              if model::eval(&case.node, &inputs, o).map_or(false, |e| e == act) {
+                ok = true;
+                break 'outer;
+              }
+            }
+          }
+        }
+      }
+      if ok {
+        Verdict::Ok
+      } else {
+        let (ea, ee) = (model::strip(&act), model::strip(&expected));
+        let kind = if ea == ee {
+          "timing"
+        } else if ea.iter().filter(|e| !e.is_terminal()).eq(ee.iter().filter(|e| !e.is_terminal())) {
+          "terminal"
+        } else {
+          "items"
+        };
+        Verdict::Violation { sig: format!("{kind}:tree:{names}"), detail: format!("expected [{}] got [{}]", tl_short(&expected), tl_short(&act)) }
+      }
+    }
+  };
+  let desc = if ctx.want_desc || matches!(verdict, Verdict::Violation { .. }) {
+    let mut j = pcase_json(&case);
+    j["expected"] = json!(tl_short(&expected));
+    j["delivered"] = res.as_ref().map(|t| json!(t.short())).unwrap_or_else(|m| json!({ "panic": m }));
+    Some(j)
+  } else {
+    None
+  };
+  Outcome { verdict, nontrivial: nt, hash: hash_of(&case), labels, notes: vec![], desc }
 }
 
 fn run_random(c: &mut dyn Choices, ctx: &Ctx) -> Outcome {
